@@ -11,3 +11,9 @@ add("C03", "exploration", "exhaustive enumeration of the step function (2^24) + 
 add("C01", "exploration", "property-based testing: generated frame/defect/noise streams x splittings x 4 configs against reference validity, field and embedding predicates",
     "Hypothesis-generated streams of good, defective (bit flip, truncation incl. right after the HCS, wrong length with recomputed checksums, extra octets) and noise tokens, split arbitrarily, for all four reader configurations; every returned frame is judged by an independent bit-serial FCS/length predicate (both directions), exact field octets, and an optimal greedy embedding of the frames into the flag-delimited input. Bounded search, no absence proof.",
     "No reference reader (C01 does not say which frames are returned); trusts vlib/ref_hdlc.py predicates; accessor comparison only when the frame is long enough to contain the fields.", "DESIGN.md §4 C01")
+add("C02", "exploration", "property-based testing: round trip (build well-formed frames -> reader) over splittings and configurations",
+    "Hypothesis builds clean streams of 1..6 well-formed frames inside each configuration's stated domain (by construction), including 2047-octet frames, 7E/7D-dense payloads and 1..4-octet addresses, splits them arbitrarily and requires the reader to return exactly the sent frames, valid, with the built fields. Bounded search.",
+    "Expected fields derive from the harness's frame builder / ref_fields; stuffed streams may escape up to three extra octet values.", "DESIGN.md §4 C02")
+add("C06", "exploration", "metamorphic property-based testing + exhaustive enumeration of short token sequences with every single cut",
+    "Single-call output is compared with bytewise, every-single-cut and random splittings: Hypothesis streams (C01 generator and 7E/7D-dense noise) and ALL token sequences up to length 5/6 over a 10-token alphabet x 4 configurations x every single cut. Exhaustive for that token space only.",
+    "Metamorphic relation only (no absolute oracle); the single-call run is the reference.", "DESIGN.md §4 C06")
